@@ -454,6 +454,10 @@ pub struct Opts {
     pub adjacent_pct: usize,
     /// probability (percent) that a word is replaced by a multi-byte one
     pub multibyte_pct: usize,
+    /// probability (percent) that a wrapper line carries an inline element (needs tags_on_wrappers)
+    pub wrapper_tag_pct: usize,
+    /// probability (percent) that a wrapper line is blank (needs blank_wrappers)
+    pub blank_wrapper_pct: usize,
 }
 
 impl Opts {
@@ -484,6 +488,8 @@ impl Opts {
             straddle_pct: 10,
             adjacent_pct: 35,
             multibyte_pct: 0,
+            wrapper_tag_pct: 25,
+            blank_wrapper_pct: 15,
         }
     }
 }
@@ -710,13 +716,13 @@ impl<'a, 't> Gen<'a, 't> {
     }
 
     fn wrapper_line(&mut self, indent: &str, open: bool) -> Node {
-        if self.o.blank_wrappers && self.t.chance(15) {
+        if self.o.blank_wrappers && self.t.chance(self.o.blank_wrapper_pct) {
             return self.blank_line();
         }
         let pool: &[&str] = if open { &["if (x) {", "{", "begin", "do", "try {", "loop:", "then"] } else { &["}", "end", "};", "done", "fi;", "until;"] };
         let ok: Vec<&str> = pool.iter().copied().filter(|w| !w.chars().any(|c| self.bad.contains(&c))).collect();
         let w: String = if ok.is_empty() { if open { "1:".to_string() } else { ";1".to_string() } } else { self.t.s(&ok).to_string() };
-        if self.o.tags_on_wrappers && self.t.chance(25) {
+        if self.o.tags_on_wrappers && self.t.chance(self.o.wrapper_tag_pct) {
             let elem = self.elem(false);
             let content = if self.t.chance(50) { self.word() } else { String::new() };
             return if self.t.chance(50) {
@@ -734,7 +740,7 @@ impl<'a, 't> Gen<'a, 't> {
         if body == 0 {
             return kids;
         }
-        if self.o.tags_on_wrappers && body >= 2 && self.t.chance(10) {
+        if self.o.tags_on_wrappers && body >= 2 && self.t.chance(self.o.straddle_pct) {
             // a block element spanning both wrapper lines: `{ <x>` ... `</x> }`
             let elem = self.elem(false);
             let n = self.t.below(3);
